@@ -19,6 +19,7 @@ import (
 	"os/exec"
 	"path/filepath"
 	"regexp"
+	"sort"
 	"strconv"
 	"strings"
 	"time"
@@ -75,6 +76,7 @@ type replayPlan struct {
 	src     string
 	overlay string // overlay spec file content
 	ovPath  string
+	noTag   bool // run without the verif tag and contract overlays (packages that have no contracts)
 }
 
 var reVal = regexp.MustCompile(`\(\s*(\S.*?)\s+(#x[0-9a-fA-F]+|#b[01]+|true|false)\s*\)`)
@@ -259,6 +261,11 @@ func (w *World) buildReplay(fr *FuncResult, c *Contract, clause *Clause, o *Obli
 	var setup []string
 	var terms []string
 	paramNames := []string{}
+	for _, p := range fn.Params {
+		if n, ok := isOpaqueNamed(p.Type()); ok && n == "reflect.Value" {
+			return nil, fmt.Errorf("parameter %s is a reflect.Value: the lifter cannot rebuild the message object it views from the model", p.Name())
+		}
+	}
 	for i, p := range fn.Params {
 		name := c.Params[i].Name()
 		paramNames = append(paramNames, name)
@@ -406,26 +413,41 @@ func (w *World) buildReplay(fr *FuncResult, c *Contract, clause *Clause, o *Obli
 		call = strings.Join(resNames, ", ") + " := " + call
 	}
 	var b strings.Builder
-	b.WriteString("//go:build verif && go1.18\n\npackage " + pkg.Types.Name() + "\n\nimport \"testing\"\n\n")
-	b.WriteString("// Replay of a verifier counterexample for " + o.Name + "\n")
-	b.WriteString("func TestGovcReplay(govcT *testing.T) {\n")
+	var body strings.Builder
+	b.WriteString("//go:build verif && go1.18\n\npackage " + pkg.Types.Name() + "\n\n")
+	defer func() {}()
+	header := &b
+	b2 := &body
+	_ = header
+	b2.WriteString("// Replay of a verifier counterexample for " + o.Name + "\n")
+	b2.WriteString("func TestGovcReplay(govcT *testing.T) {\n")
 	for _, s := range setup {
-		b.WriteString("\t" + s + "\n")
+		body.WriteString("\t" + s + "\n")
 	}
 	for _, a := range assigns {
-		b.WriteString("\t" + a + "\n")
+		body.WriteString("\t" + a + "\n")
 	}
 	for i, o := range olds {
-		fmt.Fprintf(&b, "\tgovcOld%d := %s\n", i, o)
+		fmt.Fprintf(&body, "\tgovcOld%d := %s\n", i, o)
 	}
-	b.WriteString("\t" + call + "\n")
+	body.WriteString("\t" + call + "\n")
 	for _, r := range resNames {
-		b.WriteString("\t_ = " + r + "\n")
+		body.WriteString("\t_ = " + r + "\n")
 	}
 	for _, p := range paramNames {
-		b.WriteString("\t_ = " + p + "\n")
+		body.WriteString("\t_ = " + p + "\n")
 	}
-	fmt.Fprintf(&b, "\tif !(%s) {\n\t\tgovcT.Fatalf(\"GOVC-REPRODUCED: clause [%s] of %s is false on the real code\")\n\t}\n}\n", exprSrc, clause.Raw.Label, strings.ReplaceAll(o.Fn, "\"", ""))
+	fmt.Fprintf(&body, "\tif !(%s) {\n\t\tgovcT.Fatalf(\"GOVC-REPRODUCED: clause [%s] of %s is false on the real code\")\n\t}\n}\n", exprSrc, clause.Raw.Label, strings.ReplaceAll(o.Fn, "\"", ""))
+	// imports: testing plus every package of the target's import set that the body mentions
+	imports := []string{"\"testing\""}
+	for path, ip := range pkg.Imports {
+		if regexp.MustCompile(`\b` + regexp.QuoteMeta(ip.Name) + `\.`).MatchString(body.String()) {
+			imports = append(imports, fmt.Sprintf("%q", path))
+		}
+	}
+	sort.Strings(imports)
+	b.WriteString("import (\n\t" + strings.Join(imports, "\n\t") + "\n)\n\n")
+	b.WriteString(body.String())
 	dir := filepath.Dir(pkg.GoFiles[0])
 	ov := ""
 	ovPath := ""
@@ -504,6 +526,9 @@ func (p *replayPlan) run(w *World) (bool, string) {
 	}
 	// the other verified packages' overlays are needed too when referenced
 	for op, src := range w.Overlays {
+		if p.noTag {
+			break
+		}
 		if op == p.ovPath {
 			continue
 		}
@@ -516,7 +541,11 @@ func (p *replayPlan) run(w *World) (bool, string) {
 	os.WriteFile(ovPath, ovJSON, 0o644)
 	ctx, cancel := context.WithTimeout(context.Background(), 120*time.Second)
 	defer cancel()
-	cmd := exec.CommandContext(ctx, "go", "test", "-tags", "verif", "-overlay", ovPath, "-vet=off", "-count=1", "-timeout", "60s", "-run", "TestGovcReplay$", ".")
+	tags := "verif"
+	if p.noTag {
+		tags = ""
+	}
+	cmd := exec.CommandContext(ctx, "go", "test", "-tags", tags, "-overlay", ovPath, "-vet=off", "-count=1", "-timeout", "60s", "-run", "TestGovcReplay$", ".")
 	cmd.Dir = p.pkgDir
 	cmd.Env = append(goEnv(), "GOCACHE="+filepath.Join(work, "gocache"))
 	var out bytes.Buffer
